@@ -64,7 +64,7 @@ type c42Worker struct {
 func c42() {
 	r := vk.Start("C42", "exploration")
 	workers := r.Pick(8, 12)
-	rounds := r.Pick(15, 50) // per worker
+	rounds := r.Pick(20, 60) // per worker
 	base := r.Scratch()
 	hb := startHeartbeat()
 	defer hb.close()
@@ -102,7 +102,7 @@ func c42() {
 			defer le.shutdown()
 			wk := &c42Worker{r: r, id: w, rng: rng, root: root, src: src, le: le, hb: hb}
 			for round := 0; round < rounds; round++ {
-				kind := []string{"scan-after-transition", "external-edit", "reversal"}[(round+w)%3]
+				kind := []string{"scan-after-transition", "external-edit", "reversal", "partial-transition", "reversal-chain"}[(round+w)%5]
 				fmt.Printf("C42 worker %d round %d: %s\n", w, round, kind)
 				if !drain(le.ep) {
 					r.Inconclusive("never-quiet")
@@ -111,14 +111,27 @@ func c42() {
 				switch kind {
 				case "scan-after-transition":
 					offsets := []time.Duration{0, 0, 0, 30, 150, 400, 700, 950, 1050, 1300}
-					wk.scanAfterTransition(offsets[(round/3+w)%len(offsets)] * time.Millisecond)
+					wk.scanAfterTransition(offsets[(round/5+w)%len(offsets)] * time.Millisecond)
 				case "external-edit":
 					wk.externalEdit()
 				case "reversal":
 					wk.reversal()
+				case "partial-transition":
+					wk.partialTransition([]string{"unknown-child", "modified-child", "missing-staged"}[(round/5+w)%3])
+				case "reversal-chain":
+					wk.reversalChain(2 + (round/5+w)%2)
 				}
 			}
 		}(w)
+	}
+	// Slow transitions with the polling tick aimed inside them.
+	slow := r.Pick(3, 12)
+	for i := 0; i < slow; i++ {
+		wg.Add(1)
+		go func(i int) {
+			defer wg.Done()
+			c42SlowTransition(r, hb, i, filepath.Join(base, fmt.Sprintf("slow%d", i)))
+		}(i)
 	}
 	wg.Wait()
 	r.Note("max_heartbeat_gap_ms", hb.max().Milliseconds())
@@ -249,6 +262,12 @@ func (w *c42Worker) scanAfterTransition(offset time.Duration) {
 	if offset > 0 {
 		time.Sleep(offset)
 	}
+	w.checkScan(a.before, a.kind, a.path, offset)
+}
+
+// checkScan issues a Scan and compares it with the independent walker's view of the (quiescent) disk.
+func (w *c42Worker) checkScan(before *core.Snapshot, kind, path string, offset time.Duration) {
+	r := w.r
 	snap, err := scanEndpoint(w.le.ep, false)
 	if err != nil {
 		r.Inconclusive("scan-error")
@@ -262,19 +281,29 @@ func (w *c42Worker) scanAfterTransition(offset time.Duration) {
 	r.Eval(1)
 	ok, where := fsx.EqualLoose(view, snap.Content)
 	countsOK := snap.Directories == stats.Directories && snap.Files == stats.Files && snap.SymbolicLinks == stats.SymbolicLinks && snap.TotalFileSize == stats.TotalFileSize
-	stale, _ := strictDiff("", a.before.Content, snap.Content)
+	stale, _ := strictDiff("", before.Content, snap.Content)
 	outcome := "fresh"
 	if !ok || !countsOK {
 		outcome = "differs"
-		r.Violation(map[string]string{"rule": "scan-after-transition-differs-from-disk", "stale": fmt.Sprint(stale)},
+		r.Violation(map[string]string{"rule": "scan-after-transition-differs-from-disk", "stale": fmt.Sprint(stale), "transition": kindClass(kind)},
 			fmt.Sprintf("the Scan issued %v after a transition (%s %q) differs from the walker's view at %q (equal to the pre-transition snapshot: %v; counters match: %v)",
-				offset, a.kind, a.path, where, stale, countsOK),
-			map[string]any{"worker": w.id, "kind": a.kind, "path": a.path, "offset_ms": offset.Milliseconds(), "first_difference": where,
+				offset, kind, path, where, stale, countsOK),
+			map[string]any{"worker": w.id, "kind": kind, "path": path, "offset_ms": offset.Milliseconds(), "first_difference": where,
 				"snapshot_at_path": describe(entryAt(snap.Content, where)), "disk_at_path": describe(entryAt(view, where)), "stale": stale})
 	}
-	r.Distinct(fmt.Sprintf("a|%s|%s|%s", a.kind, offsetBucket(offset), outcome))
+	r.Distinct(fmt.Sprintf("a|%s|%s|%s", kind, offsetBucket(offset), outcome))
 	r.Count("scans_after_transition_checked", 1)
-	r.Sample(map[string]any{"round": "scan-after-transition", "kind": a.kind, "path": a.path, "offset_ms": offset.Milliseconds(), "outcome": outcome})
+	r.Sample(map[string]any{"round": "scan-after-transition", "kind": kind, "path": path, "offset_ms": offset.Milliseconds(), "outcome": outcome})
+}
+
+func kindClass(kind string) string {
+	switch kind {
+	case "unknown-child", "modified-child", "missing-staged":
+		return "partial"
+	case "slow":
+		return "slow"
+	}
+	return "complete"
 }
 
 // (b) an external edit is noticed.
@@ -307,7 +336,7 @@ func (w *c42Worker) externalEdit() {
 }
 
 // awaitPoll waits for the notification owed for a change just made.
-func (w *c42Worker) awaitPoll(round, kind string, offset time.Duration, detail map[string]any) {
+func (w *c42Worker) awaitPoll(round, kind string, offset time.Duration, detail map[string]any) bool {
 	r := w.r
 	t0 := time.Now()
 	signalled, latency := pollOnce(w.le.ep, c42PollBound)
@@ -317,17 +346,18 @@ func (w *c42Worker) awaitPoll(round, kind string, offset time.Duration, detail m
 	if !signalled {
 		if gap >= time.Second {
 			r.Inconclusive("scheduler-unhealthy-during-poll-wait")
-			return
+			return false
 		}
 		r.Violation(map[string]string{"rule": "change-not-noticed", "round": round},
 			fmt.Sprintf("%s (%s): Poll did not return within %v although the heartbeat never paused for more than %v", round, kind, c42PollBound, gap), detail)
 		r.Distinct(fmt.Sprintf("%s|%s|missed", round, kind))
-		return
+		return false
 	}
 	r.Count("notifications_observed", 1)
 	r.Count("notification_latency_ms_total", latency.Milliseconds())
 	r.Distinct(fmt.Sprintf("%s|%s|%s|noticed", round, kind, offsetBucket(offset)))
 	r.Sample(map[string]any{"round": round, "kind": kind, "offset_ms": offset.Milliseconds(), "poll_returned_after_ms": latency.Milliseconds()})
+	return true
 }
 
 // (c) a transition whose effect is undone immediately is still reported.
@@ -340,23 +370,7 @@ func (w *c42Worker) reversal() {
 		fmt.Printf("C42 worker %d: setup failed: %s\n", w.id, why)
 		return
 	}
-	full := filepath.Join(w.root, filepath.FromSlash(a.path))
-	var err error
-	switch kind {
-	case "create":
-		err = os.Remove(full)
-	case "mkdir":
-		err = os.RemoveAll(full)
-	case "delete", "swap":
-		if kind == "swap" {
-			os.Remove(full)
-		}
-		err = os.WriteFile(full, a.oldData, 0o600)
-		if err == nil {
-			err = os.Chmod(full, a.oldMode)
-		}
-	}
-	if err != nil {
+	if !w.undo(a) {
 		r.Inconclusive("reversal-failed")
 		return
 	}
@@ -372,4 +386,195 @@ func (w *c42Worker) reversal() {
 		r.Count("reversals_exact", 1)
 	}
 	w.awaitPoll("reversal", kind, 0, map[string]any{"path": a.path})
+}
+
+// (a') a PARTIALLY applied transition changed the disk as well: the next Scan must show it.
+func (w *c42Worker) partialTransition(variant string) {
+	r := w.r
+	ctx := context.Background()
+	w.n++
+	name := fmt.Sprintf("part%d", w.n)
+	full := filepath.Join(w.root, name)
+	var changes []*core.Change
+	var before *core.Snapshot
+	setupFail := func(why string) {
+		r.Inconclusive("round-setup")
+		fmt.Printf("C42 worker %d: partial-transition setup failed: %s\n", w.id, why)
+	}
+	switch variant {
+	case "unknown-child", "modified-child":
+		// A directory with two files, known to the plan through a full scan.
+		os.Mkdir(full, 0o755)
+		os.WriteFile(filepath.Join(full, "a"), token(w.rng, 100+w.rng.Intn(2000)), 0o644)
+		os.WriteFile(filepath.Join(full, "b"), token(w.rng, 100+w.rng.Intn(2000)), 0o644)
+		snap, err := scanEndpoint(w.le.ep, true)
+		if err != nil || entryAt(snap.Content, name) == nil {
+			setupFail("scan")
+			return
+		}
+		before = snap
+		// Something the plan does not know about happens inside the directory.
+		if variant == "unknown-child" {
+			os.WriteFile(filepath.Join(full, "c"), token(w.rng, 50), 0o644)
+		} else {
+			os.WriteFile(filepath.Join(full, "b"), token(w.rng, 100+w.rng.Intn(2000)), 0o644)
+			fsx.BumpMtime(filepath.Join(full, "b"))
+		}
+		changes = []*core.Change{{Path: name, Old: entryAt(snap.Content, name)}}
+	case "missing-staged":
+		snap, err := scanEndpoint(w.le.ep, false)
+		if err != nil {
+			setupFail("scan")
+			return
+		}
+		before = snap
+		x, y := token(w.rng, 100+w.rng.Intn(2000)), token(w.rng, 100+w.rng.Intn(2000))
+		os.MkdirAll(filepath.Join(w.src, name), 0o755)
+		os.WriteFile(filepath.Join(w.src, name, "x"), x, 0o644) // the source of y is missing
+		changes = []*core.Change{{Path: name, New: &core.Entry{Kind: core.EntryKind_Directory, Contents: map[string]*core.Entry{
+			"x": {Kind: core.EntryKind_File, Digest: sha1Of(x)}, "y": {Kind: core.EntryKind_File, Digest: sha1Of(y)}}}}}
+		paths, digests := core.TransitionDependencies(changes)
+		filtered, sigs, receiver, err := w.le.ep.Stage(paths, digests)
+		if err != nil {
+			setupFail("stage")
+			return
+		}
+		if receiver != nil {
+			rsync.Transmit(w.src, filtered, sigs, receiver)
+		}
+	}
+	viewBefore, _, _ := fsx.Walk(w.root, c42WalkOptions)
+	results, problems, _, err := w.le.ep.Transition(ctx, changes)
+	if err != nil {
+		setupFail("transition: " + err.Error())
+		return
+	}
+	viewAfter, _, _ := fsx.Walk(w.root, c42WalkOptions)
+	sameDisk, _ := strictDiff("", viewBefore, viewAfter)
+	complete, _ := strictDiff("", results[0], changes[0].New)
+	if sameDisk || complete || len(problems) == 0 {
+		// Not the situation this round is about (nothing changed, or everything was applied).
+		r.Count("partial_transitions_not_partial", 1)
+		return
+	}
+	r.Count("partial_transitions_changing_the_disk", 1)
+	offset := []time.Duration{0, 0, 20 * time.Millisecond}[w.rng.Intn(3)]
+	if offset > 0 {
+		time.Sleep(offset)
+	}
+	w.checkScan(before, variant, name, offset)
+}
+
+// (c') several transitions, each undone immediately, back to back (a Scan precedes each, as the
+// endpoint requires): every reversal is owed its own notification.
+func (w *c42Worker) reversalChain(steps int) {
+	r := w.r
+	for step := 1; step <= steps; step++ {
+		kind := []string{"create", "mkdir", "delete", "swap"}[w.rng.Intn(4)]
+		a, why := w.transition(kind)
+		if a == nil {
+			r.Inconclusive("round-setup")
+			fmt.Printf("C42 worker %d: chain step %d setup failed: %s\n", w.id, step, why)
+			return
+		}
+		if !w.undo(a) {
+			r.Inconclusive("reversal-failed")
+			return
+		}
+		r.Count(fmt.Sprintf("chain_reversals_step_%d", step), 1)
+		if !w.awaitPoll(fmt.Sprintf("reversal-chain-step-%d", step), kind, 0, map[string]any{"path": a.path, "step": step, "steps": steps}) {
+			return
+		}
+	}
+}
+
+// undo reverses the effect of an applied change on disk.
+func (w *c42Worker) undo(a *c42Applied) bool {
+	full := filepath.Join(w.root, filepath.FromSlash(a.path))
+	var err error
+	switch a.kind {
+	case "create":
+		err = os.Remove(full)
+	case "mkdir":
+		err = os.RemoveAll(full)
+	case "delete", "swap":
+		if a.kind == "swap" {
+			os.Remove(full)
+		}
+		err = os.WriteFile(full, a.oldData, 0o600)
+		if err == nil {
+			err = os.Chmod(full, a.oldMode)
+		}
+	}
+	return err == nil
+}
+
+// c42SlowTransition makes one transition slow (removal of a directory with tens of thousands
+// of files) and starts it so that the poller's tick falls inside it; the Scan issued right
+// after the transition must equal the walker's view.
+func c42SlowTransition(r *vk.Run, hb *heartbeat, index int, dir string) {
+	const files = 10000
+	root := filepath.Join(dir, "beta")
+	bulk := filepath.Join(root, "bulk")
+	if err := os.MkdirAll(bulk, 0o755); err != nil {
+		r.Inconclusive("harness:materialize")
+		return
+	}
+	defer os.RemoveAll(dir)
+	for j := 0; j < files; j++ {
+		if err := os.WriteFile(filepath.Join(bulk, fmt.Sprintf("n%05d", j)), nil, 0o644); err != nil {
+			r.Inconclusive("harness:materialize")
+			return
+		}
+	}
+	os.WriteFile(filepath.Join(root, "keep"), []byte("keep"), 0o644)
+	cfg := &synchronization.Configuration{
+		WatchMode:            synchronization.WatchMode_WatchModeForcePoll,
+		WatchPollingInterval: 1,
+		ScanMode:             synchronization.ScanMode_ScanModeAccelerated,
+		ProbeMode:            behavior.ProbeMode_ProbeModeAssume,
+	}
+	created := time.Now() // the poller's ticker starts (about) now: ticks at created + k seconds
+	le, err := newLocalEndpoint("C42", root, cfg)
+	if err != nil {
+		r.Inconclusive("harness:endpoint")
+		return
+	}
+	defer le.shutdown()
+	fmt.Printf("C42 slow transition %d: %d files\n", index, files)
+	if !drain(le.ep) {
+		r.Inconclusive("never-quiet")
+		return
+	}
+	snap, err := scanEndpoint(le.ep, false)
+	if err != nil || entryAt(snap.Content, "bulk") == nil {
+		r.Inconclusive("round-setup")
+		return
+	}
+	// Aim: start the transition a fraction of its expected duration before the next tick.
+	lead := []time.Duration{40, 100, 180, 20, 140, 70}[index%6] * time.Millisecond
+	now := time.Now()
+	k := now.Sub(created)/time.Second + 1
+	nextTick := created.Add(k * time.Second)
+	if nextTick.Sub(now) < lead+50*time.Millisecond {
+		nextTick = nextTick.Add(time.Second)
+	}
+	time.Sleep(time.Until(nextTick.Add(-lead)))
+	start := time.Now()
+	results, problems, _, err := le.ep.Transition(context.Background(), []*core.Change{{Path: "bulk", Old: entryAt(snap.Content, "bulk")}})
+	end := time.Now()
+	if err != nil || len(problems) > 0 || results[0] != nil {
+		r.Inconclusive("round-setup")
+		fmt.Printf("C42 slow transition %d: not applied: %v %d problems\n", index, err, len(problems))
+		return
+	}
+	inside := !nextTick.Before(start) && !nextTick.After(end)
+	fmt.Printf("C42 slow transition %d: took %v, tick estimated %v after start (inside: %v)\n", index, end.Sub(start), nextTick.Sub(start), inside)
+	if inside {
+		r.Count("slow_transitions_with_tick_inside_estimated", 1)
+	}
+	r.Count("slow_transition_ms_total", end.Sub(start).Milliseconds())
+	w := &c42Worker{r: r, id: 100 + index, root: root, le: le, hb: hb}
+	w.checkScan(snap, "slow", "bulk", 0)
+	r.Distinct(fmt.Sprintf("slow|tick-inside=%v", inside))
 }
